@@ -26,11 +26,11 @@ import (
 )
 
 type opSpec struct {
-	Op   string `json:"op"`             // sub | bc | cancel | close
-	S    int    `json:"s,omitempty"`    // subscriber number (sub, cancel)
-	Kind string `json:"kind,omitempty"` // sub: prompt | slow | stalled
-	N    int    `json:"n,omitempty"`    // bc: number of consecutive Broadcast calls
-	After int   `json:"after,omitempty"` // the op may start only after this many Broadcast calls were issued
+	Op    string `json:"op"`              // sub | bc | cancel | close
+	S     int    `json:"s,omitempty"`     // subscriber number (sub, cancel)
+	Kind  string `json:"kind,omitempty"`  // sub: prompt | slow | stalled
+	N     int    `json:"n,omitempty"`     // bc: number of consecutive Broadcast calls
+	After int    `json:"after,omitempty"` // the op may start only after this many Broadcast calls were issued
 }
 
 type program struct {
@@ -363,6 +363,12 @@ func TestCheck(t *testing.T) {
 		// ... and Close while a Broadcast is blocked on a live stalled reader
 		{Clients: [][]opSpec{{S(1, "stalled"), BC(12)}, {after(CL, 12)}, {after(BC(1), 12)}}},
 		{Clients: [][]opSpec{{S(1, "stalled"), S(2, "prompt"), BC(12)}, {after(CL, 12), S(3, "prompt")}}},
+		// a Broadcast blocked on a stalled reader in the MIDDLE of the subscriber list while an earlier subscriber leaves (the
+		// list must not shift under the running loop), and two Broadcasts waiting on the same stalled reader (one order)
+		{Clients: [][]opSpec{{S(1, "prompt"), S(2, "stalled"), S(3, "prompt"), S(4, "prompt"), BC(12), BC(1)}, {after(CA(1), 12), CA(2)}}},
+		{Clients: [][]opSpec{{S(1, "prompt"), S(2, "stalled"), S(3, "slow"), S(4, "prompt"), BC(12), BC(1)}, {after(CA(1), 12)}, {after(CA(2), 12)}}},
+		{Clients: [][]opSpec{{S(1, "prompt"), S(2, "stalled"), S(3, "prompt"), BC(12)}, {after(BC(1), 12)}, {after(CA(2), 13)}}},
+		{Clients: [][]opSpec{{S(1, "slow"), S(2, "stalled"), S(3, "slow"), BC(12)}, {after(BC(1), 12)}, {after(CA(2), 13)}}},
 		// subscriber churn: a staying subscriber keeps receiving
 		{Clients: [][]opSpec{{S(1, "prompt"), S(2, "prompt"), CA(1), S(3, "prompt"), CA(3), BC(2)}}},
 		{Clients: [][]opSpec{{S(1, "prompt"), S(2, "slow"), S(3, "prompt"), CA(2), S(4, "prompt"), CA(4), BC(1), CA(1), BC(1)}}},
@@ -463,6 +469,28 @@ func TestCheck(t *testing.T) {
 		}, r.Why), " ", "-")
 		e.Violation(key, r.Why, tv.M{"program": progs[i], "schedule": results[i].schedule, "trace": jb.TraceStrings(r.Trace), "at": r.At})
 	}
+	// free-running (ungated) rounds: Subscribe, Broadcast, Close back to back from one goroutine - the freshly spawned
+	// forwarder may not have been scheduled yet when Close runs; the reader starts waiting only after Close returned
+	sb := &tv.Batch{}
+	nBack := ev.Pick(300, 3000)
+	for i := 0; i < nBack; i++ {
+		backToBack(sb, i)
+	}
+	srej, sres := tv.ValidateChunked(tlc.Opts{Dir: "Broadcaster", Module: "TraceBcast", Config: "TraceBcast.cfg", Workers: 8, Timeout: ev.Pick(4*time.Minute, 20*time.Minute), HeapMB: 4000}, sb)
+	fmt.Printf("TLC back-to-back validation: ok=%v traces=%d rejected=%d wall=%s %s\n", sres.OK, sb.Len(), len(srej), sres.Wall.Round(time.Millisecond), sres.What)
+	if !sres.OK {
+		e.Inconclusive("back-to-back trace validation did not run: " + sres.What + sres.Tail(1500))
+	}
+	e.Set("back_to_back_rounds", int64(nBack))
+	for _, r := range srej {
+		key := strings.ReplaceAll(strings.Map(func(c rune) rune {
+			if c >= 'a' && c <= 'z' || c >= 'A' && c <= 'Z' || c == ' ' {
+				return c
+			}
+			return -1
+		}, r.Why), " ", "-")
+		e.Violation("back-to-back:"+key, r.Why, tv.M{"family": "Subscribe, Broadcast, Close back to back (free-running)", "trace": sb.TraceStrings(r.Trace), "at": r.At})
+	}
 	// binding of the implementation-shaped model: hook-level traces must be behaviours of Broadcaster.tla (drift, not verdict)
 	hv := <-hCh
 	hmissing, hres := hv.missing, hv.res
@@ -479,6 +507,57 @@ func TestCheck(t *testing.T) {
 		_ = os.WriteFile(os.Getenv("VERIF_DUMP_HOOK"), jhb.Bytes(), 0o644)
 	}
 	selfTest(e)
+}
+
+// backToBack: one free-running round (no gates). k subscribers with unbuffered channels are subscribed, 1..3 values are
+// broadcast and Close is called, all from this goroutine without a pause; only then do the readers start waiting.
+// After Close returned nothing may be delivered any more.
+func backToBack(b *tv.Batch, round int) {
+	bc := broadcaster.New[int]()
+	k := 1 + round%3
+	nv := 1 + (round/3)%3
+	b.Start(tv.M{"family": "back-to-back", "subs": k, "values": nv})
+	chs := make([]chan int, k)
+	for s := 0; s < k; s++ {
+		chs[s] = make(chan int)
+		b.Ev("sub_call", tv.M{"s": s + 1, "kind": "prompt"})
+		bc.Subscribe(context.Background(), chs[s])
+		b.Ev("sub_ret", tv.M{"s": s + 1})
+	}
+	for v := 1; v <= nv; v++ {
+		b.Ev("bc_call", tv.M{"b": v, "v": v})
+		bc.Broadcast(v)
+		b.Ev("bc_ret", tv.M{"b": v})
+	}
+	b.Ev("close_call", nil)
+	bc.Close()
+	b.Ev("close_ret", nil)
+	// blocking readers (a forwarder hands a value over only to a reader that is waiting), each gives up after 3 ms
+	var mu sync.Mutex
+	var wg sync.WaitGroup
+	for s := 0; s < k; s++ {
+		wg.Add(1)
+		go func(s int) {
+			defer wg.Done()
+			mu.Lock()
+			b.Ev("rwait", tv.M{"s": s + 1})
+			mu.Unlock()
+			t := time.NewTimer(3 * time.Millisecond)
+			defer t.Stop()
+			for {
+				select {
+				case v := <-chs[s]:
+					mu.Lock()
+					b.Ev("recv", tv.M{"s": s + 1, "v": v})
+					mu.Unlock()
+				case <-t.C:
+					return
+				}
+			}
+		}(s)
+	}
+	wg.Wait()
+	b.Ev("quiescent", tv.M{"final": true})
 }
 
 func selfTest(e *ev.Evidence) {
